@@ -54,6 +54,7 @@ pub fn op_kind(op: &Op) -> &'static str {
         Op::Flush => "flush",
         Op::Sync => "sync",
         Op::Shrink => "shrink",
+        Op::Check => "check",
         Op::Reopen => "reopen",
         Op::ReopenAlt => "reopen_alt",
         Op::Alloc(_) => "alloc",
